@@ -727,7 +727,11 @@ func TestC13Reuse(t *testing.T) {
 			for _, name := range names {
 				st := api.NFSPROC3_REMOVE(nt.REMOVE3args{Object: nt.Diropargs3{Dir: dh, Name: nt.Filename3(name)}}).Status
 				if st != nt.NFS3_OK {
-					fail("REMOVE /%s/%s: status %d", dn, trunc(name, 30), st)
+					// (the entry may be a directory, which a server need not let REMOVE take away)
+					st = api.NFSPROC3_RMDIR(nt.RMDIR3args{Object: nt.Diropargs3{Dir: dh, Name: nt.Filename3(name)}}).Status
+				}
+				if st != nt.NFS3_OK {
+					fail("REMOVE/RMDIR /%s/%s: status %d", dn, trunc(name, 30), st)
 				}
 				wasFile[have[name].id] = true
 			}
